@@ -97,7 +97,7 @@
 // numeric number including padded zeros (dynamically created on stack)
 // default: 32 byte
 #ifndef PRINTF_NTOA_BUFFER_SIZE
-#define PRINTF_NTOA_BUFFER_SIZE 32U
+#define PRINTF_NTOA_BUFFER_SIZE 72U
 #endif
 
 // 'ftoa' conversion buffer size, this must be big enough to hold one converted
